@@ -283,11 +283,42 @@ def gen(ctx):
 SEM_MAX_N = 5      # all-subsets semantic clauses are evaluated for graphs up to this size (6 in thorough)
 
 
-def eval_chunk(ctx, cases):
-    """returns list of (single_case, (severity, kind, detail))"""
-    ev = ctx["ev"]
-    semmax = SEM_MAX_N if ctx["tier"] == "quick" else 6
-    gots = C.pmap(impl, cases, chunksize=16)
+class _Acc:
+    """evidence accumulator filled inside a worker process, merged into common.Evidence by the parent"""
+
+    def __init__(self):
+        self.n = 0
+        self.nt = set()
+        self.hist = {}
+        self.samples = []
+
+    def case(self, case, nontrivial=False):
+        import hashlib
+        import json
+        self.n += 1
+        if nontrivial:
+            self.nt.add(hashlib.sha1(json.dumps(case, sort_keys=True, default=str).encode()).hexdigest()[:16])
+        if len(self.samples) < 2:
+            self.samples.append(case)
+
+    def count(self, key, k=1):
+        self.hist[key] = self.hist.get(key, 0) + k
+
+    def merge_into(self, ev):
+        ev.evaluations += self.n
+        ev.nontrivial |= self.nt
+        for k, v in self.hist.items():
+            ev.count(k, v)
+        for c in self.samples:
+            if len(ev.samples) < 12:
+                ev.samples.append(c)
+
+
+def eval_sub(args):
+    """worker: implementation + Lean oracles + judging for a list of cases; returns (bad, acc)"""
+    cases, semmax = args
+    ev = _Acc()
+    gots = [impl(c) for c in cases]
     lines, idx = [], []
     for ci, (c, got) in enumerate(zip(cases, gots)):
         if c["kind"] == "ipm":
@@ -310,7 +341,7 @@ def eval_chunk(ctx, cases):
             small = c["g"]["n"] <= semmax
             lines.append(dm_line("insep", c["g"], c["L"], c["S"]) if small else "noop")
             lines.append(dm_line("magsem", c["g"], c["L"], c["S"], mag_extra(got)) if small and "nodes" in got else "noop")
-    ans = C.lean_batch(lines)
+    ans = C.lean_batch(lines, jobs=1)
     bad = []
     for ci, qi, li in idx:
         c, got = cases[ci], gots[ci]
@@ -324,7 +355,7 @@ def eval_chunk(ctx, cases):
             model, dec, valid = ans[li], ans[li + 1], ans[li + 2]
             dom = ip_in_domain(c["g"], x, y, L, S)
             nt = dom and not adjacent(c["g"], x, y) and (dec == "T" or bool(L or S))
-            ev.case(single, nontrivial=nt, sample_every=200000)
+            ev.case(single, nontrivial=nt)
             ev.count("ip:" + ("dom:" + dec if dom else "guard"))
             ev.count("src:" + c.get("src", ""))
             ev.count("fam:" + c.get("fam", "int"))
@@ -338,13 +369,34 @@ def eval_chunk(ctx, cases):
             small = c["g"]["n"] <= semmax
             ins = parse_pairs(insep) if small and insep != "bad-op" else None
             nt = bool(c["L"] or c["S"]) and (bool(c["L"]) or " B= " not in model)
-            ev.case(single, nontrivial=nt, sample_every=20000)
+            ev.case(single, nontrivial=nt)
             ev.count("dm:" + ("sem-all-Z" if small else "structure-only"))
             ev.count("src:" + c.get("src", ""))
             ev.count("fam:" + c.get("fam", "int"))
             v = judge_dm(c, got, model, ins, sem if small and "nodes" in got else None)
         if v:
             bad.append((single, v))
+    return bad, ev
+
+
+def par_map(fn, items, jobs=None):
+    jobs = jobs or min(16, C.os.cpu_count() or 1)
+    if jobs <= 1 or len(items) <= 1:
+        return [fn(x) for x in items]
+    import multiprocessing as mp
+    with mp.get_context("fork").Pool(jobs) as pool:
+        return pool.map(fn, items, chunksize=1)
+
+
+def eval_chunk(ctx, cases):
+    """returns list of (single_case, (severity, kind, detail)); work is done in parallel workers"""
+    semmax = SEM_MAX_N if ctx["tier"] == "quick" else 6
+    step = max(1, min(200, len(cases) // 64 + 1))
+    subs = [(cases[i:i + step], semmax) for i in range(0, len(cases), step)]
+    bad = []
+    for b, acc in par_map(eval_sub, subs):
+        bad += b
+        acc.merge_into(ctx["ev"])
     return bad
 
 
@@ -435,7 +487,7 @@ def run(ctx):
     if corpus:
         bad += eval_chunk(ctx, corpus)
         ev.count("src:corpus", len(corpus))
-    for ch in chunks(gen(ctx), 3000):
+    for ch in chunks(gen(ctx), 6000):
         if time.time() > ctx["deadline"] - 20:
             ev.extra["stopped_at_deadline"] = True
             break
